@@ -7,8 +7,9 @@ VERIF = os.path.dirname(os.path.dirname(os.path.abspath(__file__)))
 
 TECH = "bounded symbolic execution of the compiled Rust (Kani 0.68 -> CBMC 6.11, CaDiCaL SAT): UNSAT over all symbolic contents of the stated shapes, or a counterexample replayed natively"
 
-BOUND = (" Bounds (quick / thorough): operand stack depths 0..need+1 / +2, vector lengths 0..2 / 0..3, queue capacity 2; all depths and lengths "
-         "are enumerated concretely, all contents are symbolic (every i32 / f32 bit pattern). Outside the bounds nothing is claimed.")
+BOUND = (" Bounds: operand stack depths 0..need+1, vector lengths 0..2, queue capacity 2; all depths and lengths are enumerated concretely, all "
+         "contents are symbolic (every i32 / f32 bit pattern). The quick tier decides a seeded, stratified, cost-budgeted sample of the generated "
+         "harnesses, the thorough tier all of them. Outside the bounds nothing is claimed.")
 TRUST = ("Trusted: Kani 0.68 / CBMC 6.11 / CaDiCaL and rustc's MIR; the three registry stubs (RandomState::new fixed keys, Instruction::new closure "
          "wrapper, HashMap<String,Instruction>::insert association-list model) - every other line executed is /repo's current code; "
          "CBMC's own pointer/NaN instrumentation is off (no unsafe in pushr), Rust panics and unwinding assertions are on. ")
@@ -31,7 +32,7 @@ CLAIMED = {
         note=TRUST + "Index operand: any i32 on BOOLEAN/INTEGER/FLOAT; the concrete set {MIN,-1,0,1,depth-1,depth,MAX} on NAME/CODE/EXEC/vector stacks (Vec::remove/insert of large elements with a symbolic index exhausts CBMC). CODE/EXEC items are integer atoms with symbolic payload. DUP/YANKDUP/POP/FLUSH on CODE and EXEC clone or drop an Item: not covered.",
         ref="DESIGN.md section 4, C05"),
     "C09": dict(
-        text="Model checking (bounded): every BOOLVECTOR/INTVECTOR/FLOATVECTOR instruction except DEFINE, RAND (C13) and INTVECTOR.LOOP, dispatched by name through the real registry (so a name bound to the wrong function is a counterexample), equals a reference model of the README overlap rule and the doc comments, for two vectors of independent lengths 0..2 (0..3 thorough), every offset / index (any i32) and every element value." + BOUND,
+        text="Model checking (bounded): every BOOLVECTOR/INTVECTOR/FLOATVECTOR instruction except DEFINE, RAND (C13) and INTVECTOR.LOOP, dispatched by name through the real registry (so a name bound to the wrong function is a counterexample), equals a reference model of the README overlap rule and the doc comments, for two vectors of independent lengths 0..2, every offset / index (any i32) and every element value." + BOUND,
         note=TRUST + "Left free: quotients of FLOATVECTOR./, values of SINE, order of a float sort containing NaN, elements whose exact integer result overflows. FLOATVECTOR.* / *SCALAR / MEAN: elements with <= 7 significant mantissa bits. Size operands of ONES/ZEROS/FROMINT/SINE take the concrete values -1..3.",
         ref="DESIGN.md section 4, C09"),
     "C10": dict(
